@@ -339,18 +339,29 @@ Qed.
 Definition tokenizes_strict (doc : list node) : Prop :=
   exists toks, tokenize lower (ser_forest doc) = Some (toks, []) /\ segs toks = segs (forest_tokens lower doc).
 
+Lemma tokenize_unfold data : tokenize lower data = HtmlBridge.tokens_from lower (length data + 2) data (new lower).
+Proof. reflexivity. Qed.
+
 Theorem insert_ok_tokens act sel value n : balanced lower n = true -> tokenizes_strict [n] ->
   insert_ok lower sel_eval act sel value n.
 Proof.
   intros Hb (toks & Htok & Hsegs). unfold insert_ok. intros _ _. destruct n as [t a ch| | | | |]; try exact I.
-  unfold ser_forest, forest_tokens in *. cbn [flat_map] in *. rewrite app_nil_r in *.
+  unfold forest_tokens in Hsegs. cbn [flat_map] in Hsegs. rewrite app_nil_r in Hsegs.
+  assert (Ed : ser_forest [Elem t a ch] = serialize (Elem t a ch)) by (unfold ser_forest; cbn [flat_map]; apply app_nil_r).
+  rewrite Ed in Htok. clear Ed. rewrite tokenize_unfold in Htok.
   destruct act; [| |exact I].
-  - unfold append_child. apply (append_loop_tokens _ _ _ _ _ _ _ toks [] _ Htok (Nat.le_refl _) eq_refl).
-    rewrite (app_toks_equiv _ _ _ _ _ _ Hsegs), (app_target _ t a ch Hb). cbn [serialize]. fold (ser_forest (ch ++ value)).
-    rewrite ser_forest_app, <- !app_assoc. reflexivity.
-  - unfold prepend_child. apply (prepend_loop_tokens _ _ _ _ _ _ toks [] _ Htok (Nat.le_refl _) eq_refl).
-    rewrite (pre_toks_equiv _ _ _ _ _ Hsegs), (pre_target _ t a ch). cbn [serialize]. fold (ser_forest (value ++ ch)).
-    rewrite ser_forest_app, <- !app_assoc. reflexivity.
+  - assert (Happ : app_toks (content value) [] 0 toks [] = Some (serialize (Elem t a (ch ++ value)))).
+    { rewrite (app_toks_equiv _ _ _ _ _ _ Hsegs), (app_target _ t a ch Hb). cbn [serialize]. fold (ser_forest (ch ++ value)).
+      rewrite ser_forest_app, <- !app_assoc. reflexivity. }
+    revert Htok Happ. generalize (serialize (Elem t a (ch ++ value))). generalize (serialize (Elem t a ch)).
+    intros data res Htok Happ. unfold append_child.
+    exact (append_loop_tokens data (content value) (length data + 2) (new lower) (length data + 2) [] 0%Z toks [] res Htok (Nat.le_refl _) eq_refl Happ).
+  - assert (Hpre : pre_toks (content value) [] toks [] = Some (serialize (Elem t a (value ++ ch)))).
+    { rewrite (pre_toks_equiv _ _ _ _ _ Hsegs), (pre_target _ t a ch). cbn [serialize]. fold (ser_forest (value ++ ch)).
+      rewrite ser_forest_app, <- !app_assoc. reflexivity. }
+    revert Htok Hpre. generalize (serialize (Elem t a (value ++ ch))). generalize (serialize (Elem t a ch)).
+    intros data res Htok Hpre. unfold prepend_child.
+    exact (prepend_loop_tokens data (content value) (length data + 2) (new lower) (length data + 2) [] toks [] res Htok (Nat.le_refl _) eq_refl Hpre).
 Qed.
 
 (* ------------------------------------------------------------------------------------------ C15 on bytes, one filter *)
